@@ -415,7 +415,7 @@ class Minimize(Strategy):
         self, parser: argparse.ArgumentParser, args: argparse.Namespace
     ) -> None:
         super().process_args(parser, args)
-        if args.chunk_size:
+        if args.chunk_size is not None:
             self.minimize_min = args.chunk_size
             self.minimize_max = args.chunk_size
             self.minimize_repeat = "never"
@@ -424,7 +424,7 @@ class Minimize(Strategy):
             self.minimize_max = args.max
             self.minimize_repeat = args.repeat
         self.minimize_repeat_first_round = args.repeat_first_round
-        if args.max_run_time:
+        if args.max_run_time is not None:
             self.stop_after_time = args.max_run_time
         if not is_power_of_two(self.minimize_min):
             parser.error("Min must be a power of two.")
